@@ -214,6 +214,7 @@ func Main(t *testing.T, h Hooks) {
 	// self-test, not assumed).
 	runtime.GOMAXPROCS(1)
 
+	CurrentFile = filepath.Join(out, "current.json")
 	st := newStats()
 	st.Property, st.Tier, st.Seed, st.Worker = p.ID, *flagTier, *flagSeed, *flagWorker
 	st.Rule, st.Components = p.Rule, p.Components
